@@ -226,6 +226,8 @@ class World:
     def on_acquire(self, lock):
         if not self.active or self.in_action or self.held:
             return
+        if len(self.events) > 40:
+            raise Hang("livelock")
         act = self.next_action("-")
         self.events.append("L" + lock.name[0] + ":" + act)
         if act == "T":
@@ -236,6 +238,8 @@ class World:
     def on_wait(self, cv, timeout):
         if self.in_action:
             raise Hang("nested:" + cv.name)     # the world's own action would block (never expected)
+        if len(self.events) > 40:
+            raise Hang("livelock")          # a wait loop that spins (every wait of the double returns at once)
         act = self.next_action("N")
         self.events.append("W%s:%s:%s" % (cv.name, "t" if timeout is not None else "n", act))
         before = cv.notified
